@@ -109,7 +109,7 @@ type Opts struct {
 }
 
 // genFragment draws how the scripted peer's writes are cut into pieces: in half of the cases not at
-// all, otherwise 1..4 piece sizes used cyclically over the first 600 bytes of every send.
+// all, otherwise 1..4 piece sizes used cyclically over the first 160 bytes of every send.
 func genFragment(t *rapid.T) []int {
 	if rapid.Bool().Draw(t, "fragmented") {
 		return rapid.SliceOfN(rapid.SampledFrom(p2p.GenFragmentSizes), 1, 4).Draw(t, "pieces")
